@@ -126,6 +126,58 @@ class CutSession:
         if self.deletes and self.creates:
             self.ctx.count('cycles_with_delete_and_create')
 
+    def mid_command(self, op, path):
+        """A side world (forked child, the history itself goes on undisturbed): right before the next ZooKeeper request
+        of an operator command that is half-way, the master handles what its watches have for it and publishes a
+        whole cycle; every write of that publication is a crash point - the state a crash there leaves is the store
+        right before the write."""
+        h, ctx = self.h, self.ctx
+
+        def child():
+            d = h.d
+            d.srv.before_write = None
+            d.srv.on_op = None
+            d.cutter = None
+            out = {'violations': [], 'writes': 0, 'delivered': 0}
+            try:
+                out['delivered'] = d.deliver()
+            except BaseException as err:   # noqa  (the master dies on the half-finished command: no publication)
+                out['died'] = '%s: %s' % (type(err).__name__, err)
+                return out
+            seen = set()
+
+            def hook(client, wop, wpath):
+                if client is not d.mclient:
+                    return
+                out['writes'] += 1
+                for a, ss in double_entries(d).items():
+                    if a not in seen:
+                        seen.add(a)
+                        out['violations'].append((
+                            'double-placement-at-cut:reschedule-between-operator-writes',
+                            'the operator command stands before its request %s %s; the master handled what was pending and '
+                            'stopped before write %d (%s %s) of the cycle it then published: %s is recorded under %s' % (
+                                op, path, out['writes'], wop, wpath, a, ss)))
+            d.srv.before_write = hook
+            try:
+                d.master.reschedule()
+            except BaseException as err:   # noqa
+                out['died'] = '%s: %s' % (type(err).__name__, err)
+            d.srv.before_write = None
+            hook(d.mclient, '<end>', '-')
+            return out
+        res = in_child(child)
+        ctx.count('cycles_published_between_operator_writes')
+        if res is None or 'harness_error' in (res or {}):
+            ctx.count('cut_child_died')
+            if res:
+                ctx.notes.append(res['harness_error'] + res.get('tb', ''))
+            return
+        if res.get('delivered') and res.get('writes', 0) > 1:
+            ctx.count('cycles_between_operator_writes_with_events_and_writes')
+        for mech, msg in res['violations']:
+            ctx.violation(mech, msg, witness=dict(op=op, path=path), case=dict(ops=h.d.ops[-40:], cycle=h.cycles))
+
     def cut(self, op, path):
         h, ctx = self.h, self.ctx
         k, when = self.k, self.when
